@@ -14,6 +14,7 @@ import json
 from hypothesis import strategies as st
 
 from gen import subjects as S
+from gen.subjects import pick, picks
 from harness import core
 from oracle import markmodel as mm
 from oracle import tsref
@@ -434,15 +435,15 @@ def an_op(draw, typ, version, form, subject):
     kinds = ["new_version"] * 5 + ["set_modified"] * 3 + ["unmodifiable"] * 2 + ["mark"] * 2 + ["custom"] * 2 + ["roundtrip"]
     if form == "dict":
         kinds.append("poke")
-    kind = draw(st.sampled_from(kinds))
+    kind = pick(draw, kinds)
     op = {"op": kind, "clock": draw(clock_delta)}
     if form == "object":
-        op["api"] = draw(st.sampled_from(["method", "function"]))
+        op["api"] = pick(draw, ["method", "function"])
 
     def changes(min_size=1):
         if sco:
-            props = draw(st.lists(st.sampled_from(sorted(S.FILE_FREE)), min_size=min_size, max_size=2, unique=True))
-            return {p: (None if draw(st.integers(0, 2)) == 0 else draw(st.sampled_from(S.FILE_FREE[p][0]))) for p in props}
+            props = picks(draw, sorted(S.FILE_FREE), min_size, 2)
+            return {p: (None if draw(st.integers(0, 2)) == 0 else pick(draw, S.FILE_FREE[p][0])) for p in props}
         if min_size == 0 and draw(st.booleans()):
             return {}
         return draw(S.change_set(typ, version))
@@ -454,10 +455,10 @@ def an_op(draw, typ, version, form, subject):
         op["changes"] = changes(0)
     elif kind == "unmodifiable":
         if sco and subject["id"] != "file--" + S.uid(0x71) and draw(st.booleans()):
-            p = draw(st.sampled_from(sorted(S.FILE_LOCKED)))
-            op["prop"], op["value"] = p, draw(st.sampled_from(S.FILE_LOCKED[p]))
+            p = pick(draw, sorted(S.FILE_LOCKED))
+            op["prop"], op["value"] = p, pick(draw, S.FILE_LOCKED[p])
         else:
-            p = draw(st.sampled_from(["id", "type", "created", "created_by_ref"]))
+            p = pick(draw, ["id", "type", "created", "created_by_ref"])
             op["prop"] = p
             if p == "id":
                 op["value"] = "%s--%s" % (typ, S.uid(0x99))
@@ -465,23 +466,23 @@ def an_op(draw, typ, version, form, subject):
                 op["value"] = "campaign" if typ != "campaign" else "identity"
             elif p == "created":
                 c = tsref.parse(subject["created"])[0]
-                op["value"] = tsref.fmt(c + draw(st.sampled_from([-10 ** 6, 1000, 10 ** 6, DAY])) if c > 10 ** 6 else c + 1000, "millisecond", "exact")
+                op["value"] = tsref.fmt(c + pick(draw, [-10 ** 6, 1000, 10 ** 6, DAY]) if c > 10 ** 6 else c + 1000, "millisecond", "exact")
             else:
                 cur = subject.get("created_by_ref")
                 other = [x for x in S.IDENT_IDS if x != cur]
-                op["value"] = draw(st.sampled_from(other + ([None] if cur else [])))
+                op["value"] = pick(draw, other + ([None] if cur else []))
         op["changes"] = {}
     elif kind == "mark":
-        op["how"] = draw(st.sampled_from(["add", "add", "remove", "clear", "gadd"]))
+        op["how"] = pick(draw, ["add", "add", "remove", "clear", "gadd"])
         op["marking"] = draw(st.integers(0, 2))
         if op["how"] == "gadd":
-            op["selector"] = draw(st.sampled_from(["type", "id", "created"]))
+            op["selector"] = pick(draw, ["type", "id", "created"])
         if sco:
             op["api"] = "function"
     elif kind == "custom":
-        op["name"] = draw(st.sampled_from(["x_note", "x_other"]))
-        op["value"] = draw(st.one_of(st.sampled_from(CUSTOM_VALUES), st.none()))
-        op["allow_custom"] = draw(st.sampled_from([True, True, None, None, False]))
+        op["name"] = pick(draw, ["x_note", "x_other"])
+        op["value"] = pick(draw, CUSTOM_VALUES + [None] * 3)
+        op["allow_custom"] = pick(draw, [True, True, None, None, False])
         op["changes"] = changes(0) if draw(st.booleans()) else {}
     elif kind == "poke":
         op["which"] = draw(st.integers(0, 3))
@@ -490,8 +491,8 @@ def an_op(draw, typ, version, form, subject):
 
 @st.composite
 def history(draw, max_ops):
-    version = draw(st.sampled_from(S.VERSIONS))
-    form = draw(st.sampled_from(["object", "dict"]))
+    version = pick(draw, S.VERSIONS)
+    form = pick(draw, ["object", "dict"])
     if version == "2.1" and draw(st.integers(0, 3)) == 0:
         subject = draw(S.versionable_file_sco())
     else:
@@ -499,12 +500,12 @@ def history(draw, max_ops):
         if draw(st.integers(0, 4)) == 0:
             subject["x_start"] = "custom from the beginning"
     typ = subject["type"]
-    ops = draw(st.lists(an_op(typ, version, form, subject), min_size=draw(st.sampled_from([1, 1, 4, 10, 20])), max_size=max_ops))
+    ops = draw(st.lists(an_op(typ, version, form, subject), min_size=pick(draw, [1, 1, 4, 10, 20]), max_size=max_ops))
     if draw(st.integers(0, 3)) == 0:
         tail = draw(st.lists(an_op(typ, version, form, subject), min_size=1, max_size=3))
         rv = {"op": "revoke", "clock": draw(clock_delta)}
         if form == "object":
-            rv["api"] = draw(st.sampled_from(["method", "function"]))
+            rv["api"] = pick(draw, ["method", "function"])
         again = dict(rv, clock=draw(clock_delta))
         ops = ops + [rv] + tail + ([again] if draw(st.booleans()) else [])
     return {"version": version, "form": form, "subject": subject, "ops": ops}
@@ -537,11 +538,11 @@ def run(ctx):
         ctx.note(case, info["nontrivial"], info["classes"])
         ctx.handle(case, fails)
 
-    core.run_given(ctx, history(30 if ctx.quick else 60), body, ctx.n(2800, 22000), label="c05-histories")
+    core.run_given(ctx, history(30 if ctx.quick else 60), body, ctx.n(2600, 14000), label="c05-histories")
     need = ["clock:" + r for r in CLOCK_RELS] + ["version:2.0", "version:2.1", "form:object", "form:dict", "op:revoke", "op:poke", "op:roundtrip",
                                                   "op:set_modified", "op:unmodifiable", "op:custom", "op:mark:gadd", "on-revoked:new_version"]
     total = sum(v for k, v in ctx.classes.items() if k.startswith("clock:"))
-    if not ctx.violations:
+    if not ctx.violations and ctx.evaluations >= 1000:
         for k in need:
             if ctx.classes.get(k, 0) == 0 or (k.startswith("clock:") and ctx.classes[k] < 0.01 * total):
                 raise core.HarnessError("generator unhealthy: class %s has share %d of %d" % (k, ctx.classes.get(k, 0), total))
